@@ -1,6 +1,8 @@
 package c19
 
 import (
+	"sync"
+
 	authzenv1 "github.com/openfga/api/proto/authzen/v1"
 	openfgav1 "github.com/openfga/api/proto/openfga/v1"
 	parser "github.com/openfga/language/pkg/go/transformer"
@@ -45,11 +47,45 @@ condition cy(ip: ipaddress, l: list<string>, m: map<int>) {
 }
 `
 
+// the compact model: baseline of the double replacements on WriteAuthorizationModel.
+const smallDSL = `model
+  schema 1.1
+
+type user
+
+type doc
+  relations
+    define parent: [doc]
+    define viewer: [user with cx, doc#viewer] or viewer from parent
+
+condition cx(x: int) {
+  x < 100
+}
+`
+
+var smallModelOnce = sync.OnceValue(func() *openfgav1.AuthorizationModel { return parser.MustTransformDSLToProto(smallDSL) })
+
+func smallWAM(e env) proto.Message {
+	m := proto.Clone(smallModelOnce()).(*openfgav1.AuthorizationModel)
+	return &openfgav1.WriteAuthorizationModelRequest{StoreId: e.StoreID, TypeDefinitions: m.GetTypeDefinitions(), SchemaVersion: m.GetSchemaVersion(), Conditions: m.GetConditions()}
+}
+
+// baselineOf returns the request a kind=mut case starts from.
+func baselineOf(c Case, e env) proto.Message {
+	if c.Base == "small" {
+		return smallWAM(e)
+	}
+	return baselines[c.RPC](e)
+}
+
 // placeholder ids used while enumerating (paths do not depend on the ids).
 const phID = "01ARZ3NDEKTSV4RRFFQ69G5FAV"
 
+var baseModelOnce = sync.OnceValue(func() *openfgav1.AuthorizationModel { return parser.MustTransformDSLToProto(baseDSL) })
+
+// baseModel returns a private copy of the parsed baseline model.
 func baseModel() *openfgav1.AuthorizationModel {
-	return parser.MustTransformDSLToProto(baseDSL)
+	return proto.Clone(baseModelOnce()).(*openfgav1.AuthorizationModel)
 }
 
 func ctxX(x float64) *structpb.Struct {
@@ -214,4 +250,5 @@ var graphRPCs = []string{"Check", "BatchCheck", "Expand", "ListObjects", "Stream
 	"authzen.Evaluation", "authzen.SubjectSearch", "authzen.ResourceSearch", "authzen.ActionSearch"}
 
 // doubleRPCs: the four RPCs with the largest request grammars / deepest handler logic get all double replacements.
+// (WriteAuthorizationModel starts from the compact model for its doubles: the full baseline model has ~2800 single replacements)
 var doubleRPCs = []string{"Check", "Write", "ListUsers", "WriteAuthorizationModel"}
